@@ -303,7 +303,7 @@ Definition stsd_sr (ld : leafdec) (fuel : nat) (h : hdr) (startPos : N) (s : sst
       | Ok (cnt, r2) =>
           match children_sr ld fuel (addu64 startPos 16) (addu64 startPos 16) (addu64 startPos (hsize h)) (rpos r2) []
                             (mkS r2 (scost s)) with
-          | (Ok kids, s2) => (stsd_finish vf cnt kids, s2)
+          | (Ok kids, s2) => if rerr (sr s2) then (Err, s2) else (stsd_finish vf cnt kids, s2)   (* return &stsd, sr.AccError() *)
           | (Err, s2) => (Err, s2) | (Panic, s2) => (Panic, s2) | (OutOfFuel, s2) => (OutOfFuel, s2)
           end
       | Err => (Err, s) | Panic => (Panic, s) | OutOfFuel => (OutOfFuel, s)
